@@ -102,7 +102,7 @@ PROPS['C03'] = dict(
 
 PROPS['C06'] = dict(
     level='proof',
-    units=['guards', 'commit', 'txn', 'open'],
+    units=['guards', 'commit', 'txn', 'open', 'bucketops'],
     census='ReadOnlyTx',
     explanation='Uncommitted / failed / read-only work leaves no trace: G1 proves on the real bodies that each of the nine mutators (Bucket::{put, delete, create_bucket, '
                 'get_or_create_bucket, delete_bucket}, Tx::{create_bucket, get_or_create_bucket, delete_bucket, commit}) returns ReadOnlyTx on a read-only handle, and that the '
@@ -169,7 +169,7 @@ PROPS['C07'] = dict(
 PROPS['C05'] = dict(
     level='proof',
     composition='the accounting part of INV (pending pages below the high-water mark, not free, pending once; live pages not free) is preserved by begin/end reader and commit: Verus lemma L2 (contracts/lemmas.vtmpl) under assumptions A1/A2',
-    units=['freelist', 'commit', 'open', 'pagenode', 'lemmas'],
+    units=['freelist', 'commit', 'open', 'pagenode', 'lemmas', 'bucketops'],
     kani_quick=['layout'],
     kani_thorough=['codec'],
     explanation='Page accounting, allocator and serialisation side (the tree-shape half is outside): the allocator never hands out a page that is pending, already allocated in this transaction or a header page, '
@@ -186,7 +186,7 @@ PROPS['C05'] = dict(
 )
 PROPS['C01'] = dict(
     level='other',
-    units=['pagenode', 'cursor', 'range', 'guards'],
+    units=['pagenode', 'cursor', 'range', 'guards', 'bucketops'],
     kani_quick=['layout'],
     kani_thorough=['codec'],
     explanation='Leaf operations against the mathematical ordered map, for all sizes: Node::insert_data is map insert on a strictly ascending entry sequence (replace on equal key, insert at the sorted position otherwise, '
